@@ -246,6 +246,74 @@ def search_process_histories(chk, r, n):
         chk.search_case("last_run_of_a_process_vs_fresh_process", not problems, what=f"{what}: {name} computed after another run in the same process differs from a fresh process: " + "; ".join(problems[:3]), data=d, sample=d if i == 0 else None)
 
 
+def search_sequence_orders(chk, r, thorough):
+    """one long sequence of *different* configurations that share kinematics, run in one process:
+    every run must give operators bit-identical to the same run alone in a fresh process (any
+    process-wide memo keyed too coarsely makes some later run of the sequence wrong)"""
+    from .c18 import worker
+
+    gA = cards.default_grid(9, 0.01)
+    gB = list(gA)
+    gB[3] = float(0.5 * (gA[3] + gA[4]))
+    gB[6] = float(0.5 * (gA[6] + gA[7]))
+    pts = [dict(x=float(gA[4]), Q2=20.0), dict(x=0.3, Q2=20.0), dict(x=0.3, Q2=3000.0)]
+    ckm2 = "0.9 0.3 0.1 0.3 0.9 0.2 0.1 0.2 0.95"
+    variants = [
+        # (label, theory kwargs, observable-card kwargs, observable)
+        ("base NC", dict(PTO=1), dict(), "F2_total"),
+        ("other nodes, same size", dict(PTO=1), dict(interpolation_xgrid=gB), "F2_total"),
+        ("Z decoupled", dict(PTO=1, MZ=1e30), dict(), "F2_total"),
+        ("other weak mixing angle, polarised", dict(PTO=0, SIN2TW=0.3), dict(PolarizationDIS=0.6, PropagatorCorrection=0.1), "F3_total"),
+        ("base polarised", dict(PTO=0), dict(PolarizationDIS=0.6), "F3_total"),
+        ("CC", dict(PTO=1), dict(prDIS="CC", ProjectileDIS="neutrino"), "F2_total"),
+        ("CC other CKM", dict(PTO=1, CKM=ckm2), dict(prDIS="CC", ProjectileDIS="neutrino"), "F2_total"),
+        ("CC FFNS3", dict(PTO=1, FNS="FFNS", NfFF=3), dict(prDIS="CC", ProjectileDIS="antineutrino", TargetDIS="isoscalar"), "F2_total"),
+        ("FFNS3 heavier charm", dict(PTO=1, FNS="FFNS", NfFF=3, mc=2.0), dict(), "F2_total"),
+        ("FFNS3", dict(PTO=1, FNS="FFNS", NfFF=3), dict(), "F2_total"),
+        ("degree 2", dict(PTO=1), dict(interpolation_polynomial_degree=2), "F2_light"),
+        ("linear interpolation", dict(PTO=1), dict(interpolation_is_log=False), "F2_light"),
+        ("TMC exact", dict(PTO=0, TMC=3), dict(), "F2_light"),
+        ("TMC exact degree 2", dict(PTO=0, TMC=3), dict(interpolation_polynomial_degree=2), "F2_light"),
+        ("neutron", dict(PTO=0), dict(TargetDIS="neutron"), "F2_total"),
+        ("thresholds moved", dict(PTO=1, kbThr=3.0), dict(), "F2_total"),
+        ("cross section", dict(PTO=0), dict(), "XSHERANC_total"),
+    ]
+    if not thorough:
+        variants = variants[:12] + variants[12:14]
+    runs = []
+    for label, th, ob, name in variants:
+        kw = dict(interpolation_xgrid=gA, interpolation_polynomial_degree=3)
+        kw.update(ob)
+        p_ = [dict(p, y=0.5) for p in pts] if name.startswith("XS") else [dict(p) for p in pts]
+        runs.append(dict(theory=cards.theory(**th), observables=cards.obs({name: p_}, **kw)))
+    env = {"NUMBA_DISABLE_JIT": "1"}
+    import concurrent.futures
+
+    try:
+        # the whole sequence in one process, and every run alone in a fresh process (in parallel)
+        with concurrent.futures.ThreadPoolExecutor(max_workers=14) as ex:
+            f_seq = ex.submit(worker, env, dict(kernels=[], runs=runs))
+            f_alone = [ex.submit(worker, env, dict(kernels=[], runs=[run_])) for run_ in runs]
+            fwd = f_seq.result()["runs"]
+            bwd = [f_.result()["runs"][0] for f_ in f_alone]
+    except Exception as e:  # noqa
+        chk.search_case("sequence_vs_fresh_processes", False, what=f"worker failed: {e}"[:200], data=dict(n=len(runs)))
+        return
+    for (label, th, ob, name), a, b in zip(variants, fwd, bwd):
+        problems = []
+        if ("error" in a) != ("error" in b):
+            problems.append(f"fails in one of the two settings only: {a.get('error') or b.get('error')}"[:160])
+        elif "error" not in a:
+            for j, (pa, pb) in enumerate(zip(a["ok"][name], b["ok"][name])):
+                for k in sorted(set(pa) | set(pb)):
+                    va, vb = np.array(pa.get(k, 0.0)), np.array(pb.get(k, 0.0))
+                    if va.shape != vb.shape or not np.array_equal(va, vb):
+                        d = float(np.abs(va - vb).max()) if va.shape == vb.shape else float("nan")
+                        problems.append(f"point {j} order {k}: differs by {d:.3g}")
+        d = dict(run=label, theory=th, obs=ob, observable=name, position_forward=[v[0] for v in variants].index(label), sequence=[v[0] for v in variants], problems=problems[:6])
+        chk.search_case("sequence_vs_fresh_processes", not problems, what=f"run '{label}' ({name}) gives different operators as part of a sequence of {len(variants)} different runs in one process than alone in a fresh process: " + "; ".join(problems[:3]), data=d, sample=d if label == "Z decoupled" else None, nontrivial="error" not in a)
+
+
 def run(tier):
     chk = common.Check("C14", tier)
     thorough = tier == "thorough"
@@ -255,7 +323,8 @@ def run(tier):
     corr_plan(chk, r, 60 if thorough else 10)
     search_histories(chk, r, 60 if thorough else 8)
     search_tmc_coincidences(chk, r, 20 if thorough else 3)
-    search_process_histories(chk, r, 12 if thorough else 3)
+    search_process_histories(chk, r, 12 if thorough else 2)
+    search_sequence_orders(chk, r, thorough)
     chk.assumptions += [
         "an ESF object's result is a deterministic function of (observable, x, Q2, class) and the run configuration: hidden state inside numba/LeProHQ/scipy and the memo tables of pure functions (sv operators, n3lo interpolators) are outside the model; the bit-exact comparison of real runs is what would expose them",
         "requests are well formed (dicts contain x and Q2); a request lacking one is a caller error",
